@@ -563,7 +563,8 @@ def stream_savehist(ctx, reqs, sc):
             ctx.count('savehist-raised', json.dumps(spec, sort_keys=True), nontrivial=False, bucket=cls)
             continue
         lens = [len(st['ref']) for st in steps]
-        shrinks = any(b < a for a, b in zip(([len(pre)] if pre is not None else []) + lens, lens))
+        seq = ([len(pre)] if pre is not None else []) + lens
+        shrinks = any(b < a for a, b in zip(seq, seq[1:]))
         how = ('in a scratch dir, one project directory: [write a pre-existing .jedi/project.json]; for each step: '
                'p = jedi.Project(path, **kw); p.save(); q = jedi.Project.load(path)')
         for i, (st, pr, q) in enumerate(zip(steps, projs, loaded)):
